@@ -33,7 +33,7 @@ PROPS = {
         'assumptions': ['the hand-written Model/Cpu.lean mirrors the Rust handlers (checked by the correspondence run on every case); only its dispatch tables are regenerated from source'],
     },
     'C02': {
-        'lean': ['H8.Props.C02'],
+        'lean': ['H8.Props.C02', 'H8.Props.C02M'],
         'gen': ['consts', 'buscost', 'busmap', 'dispatch'],
         'runs': [{'mode': 'step', 'shards': 16}],
         'rule': 'single-step cases on the real Cpu (fetch+exec through the verif hook) from a tagged background memory (every byte = hash of its address) with the full register file, CCR, PC, cost and the complete delta of all five stores compared: per form of spec/isa.tbl every combination of the register fields (x2), all 256 initial CCR values, every value of immediate/bit/condition fields, seeded random instances with boundary-value register files and operand addresses at both ends of on-chip RAM, DRAM and the vector area; byte forms: the (dest, src, carry-in) lattice (quick: 1/8 of all 131072 triples, offset by the seed; thorough: all), word forms: every 16-bit value against partner values, long forms: carry-chain boundary values. distinct non-trivial = distinct (form, first instruction bytes, resulting register file) triples of in-domain cases.',
@@ -54,7 +54,7 @@ PROPS = {
         'assumptions': ['the hand-written Model/Cpu.lean mirrors the Rust handlers (checked by the correspondence run on every case); only its dispatch tables are regenerated from source'],
     },
     'C05': {
-        'lean': ['H8.Props.C05', 'H8.Lemmas.MemBE'],
+        'lean': ['H8.Props.C05', 'H8.Lemmas.MemBE', 'H8.Props.C05H'],
         'gen': ['consts', 'buscost', 'busmap', 'dispatch'],
         'runs': [{'mode': 'step', 'shards': 16}],
         'rule': 'single-step cases on the real Cpu (fetch+exec through the verif hook) from a tagged background memory (every byte = hash of its address) with the full register file, CCR, PC, cost and the complete delta of all five stores compared: per form of spec/isa.tbl every combination of the register fields (x2), all 256 initial CCR values, every value of immediate/bit/condition fields, seeded random instances with boundary-value register files and operand addresses at both ends of on-chip RAM, DRAM and the vector area; 16 conditions x 256 CCR x both Bcc forms, all even 8-bit displacements, return frames with non-zero top byte. distinct non-trivial = distinct (form, first instruction bytes, resulting register file) triples of in-domain cases.',
@@ -68,7 +68,7 @@ PROPS = {
         'assumptions': ['the hand-written Model/Cpu.lean mirrors the Rust handlers (checked by the correspondence run on every case); only its dispatch tables are regenerated from source'],
     },
     'C07': {
-        'lean': ['H8.Props.C07', 'H8.Props.C07R.Base', 'H8.Props.C07R.P01', 'H8.Props.C07R.P02', 'H8.Props.C07R.P03', 'H8.Props.C07R.P04', 'H8.Props.C07R.P05', 'H8.Props.C07R.P06', 'H8.Props.C07R.P07', 'H8.Props.C07R.P08', 'H8.Props.C07R.P09', 'H8.Props.C07R.P10', 'H8.Props.C07R.P11', 'H8.Props.C07R.P12', 'H8.Props.C07R.P13', 'H8.Props.C07E'],
+        'lean': ['H8.Props.C07', 'H8.Props.C07R.Base', 'H8.Props.C07R.P01', 'H8.Props.C07R.P02', 'H8.Props.C07R.P03', 'H8.Props.C07R.P04', 'H8.Props.C07R.P05', 'H8.Props.C07R.P06', 'H8.Props.C07R.P07', 'H8.Props.C07R.P08', 'H8.Props.C07R.P09', 'H8.Props.C07R.P10', 'H8.Props.C07R.P11', 'H8.Props.C07R.P12', 'H8.Props.C07R.P13', 'H8.Props.C07E', 'H8.Props.C07E2'],
         'gen': ['consts', 'buscost', 'busmap', 'dispatch'],
         'runs': [{'mode': 'step', 'shards': 16}],
         'rule': 'single-step cases on the real Cpu (fetch+exec through the verif hook) from a tagged background memory (every byte = hash of its address) with the full register file, CCR, PC, cost and the complete delta of all five stores compared: per form of spec/isa.tbl every combination of the register fields (x2), all 256 initial CCR values, every value of immediate/bit/condition fields, seeded random instances with boundary-value register files and operand addresses at both ends of on-chip RAM, DRAM and the vector area; plus all 65,536 first words and all second words of every prefix class (see the C07 generator). distinct non-trivial = distinct (form, first instruction bytes, resulting register file) triples of in-domain cases.',
@@ -82,7 +82,7 @@ PROPS = {
         'assumptions': ['the hand-written Model/Cpu.lean mirrors the Rust handlers (checked by the correspondence run on every case); only its dispatch tables are regenerated from source'],
     },
     'C20': {
-        'lean': ['H8.Props.C20', 'H8.Props.C19', 'H8.Props.C20R'],
+        'lean': ['H8.Props.C20', 'H8.Props.C19', 'H8.Props.C20R', 'H8.Props.C20M'],
         'gen': ['consts', 'buscost', 'busmap', 'dispatch'],
         'runs': [{'mode': 'step', 'shards': 16}],
         'rule': 'single-step cases on the real Cpu (fetch+exec through the verif hook) from a tagged background memory (every byte = hash of its address) with the full register file, CCR, PC, cost and the complete delta of all five stores compared: per form of spec/isa.tbl every combination of the register fields (x2), all 256 initial CCR values, every value of immediate/bit/condition fields, seeded random instances with boundary-value register files and operand addresses at both ends of on-chip RAM, DRAM and the vector area; six bus-controller settings under which every (area, kind) cost is distinct; only the charge is compared. distinct non-trivial = distinct (form, first instruction bytes, resulting register file) triples of in-domain cases.',
